@@ -1625,3 +1625,22 @@ PROPS['C12'] = dict(
     trusted_base=COMMON_TRUST,
     assumptions=['u64 parsing, str::lines/trim/split_once as modelled (validated by the CueText correspondence on Unicode and malformed input)'],
 )
+
+PROPS['C20'] = dict(
+    module='FlacModel.Props.C20',
+    theorems=['Flac.C20.idx_run', 'Flac.C20.track_body_run', 'Flac.C20.tracks_run', 'Flac.C20.import_exact', 'Flac.C20.other_skipped', 'Flac.C20.ranges_of_import',
+              'Flac.C20.export_import_layout', 'Flac.C20.timestamp_value', 'Flac.C12.parseMsf_ok'],
+    components=[CueText()],
+    rule='generated cue sheet texts with the layout they describe: 1-99 tracks, with and without a pre-gap INDEX 00, up to 100 index points per track, increasing MM:SS:FF positions including minutes far above 99, optional '
+         'CATALOG / ISRC (with dashes, quoted) / FLAGS PRE lines, FILE/REM lines, arbitrary indentation, trailing blanks, LF and CRLF; the expected structure, track ranges and the export->import result are computed '
+         'independently in Python and compared with the implementation; 15 malformation classes run through the same model for agreement',
+    claim='import_exact: for EVERY well-formed layout (LayoutOk: first track number 1 at 00:00:00, consecutive track and index numbers, strictly increasing positions, at most 99 tracks and 100 index points, all before the '
+          'stream end) the importer run on its classified lines yields exactly the described block: track numbers, index numbers, track offsets at the first index, index offsets relative to it, pre-emphasis, ISRCs, catalog, '
+          'lead-in 88200 and the lead-out at the stream length (induction over tracks and over index points, any profile). other_skipped: FILE/REM/unknown lines change nothing. ranges_of_import: track ranges run from each '
+          'INDEX 01 to the next and to the stream length. export_import_layout: the lines of display() of an imported sheet import again to the same track/index layout. timestamp_value + parseMsf_ok: the '
+          'MM:SS:FF <-> samples conversion at 588 samples per frame is exact and checked.',
+    note='The theorems are about interp on classified lines; the lexical layer (str::lines, trim, split_once, integer parsing, the exact text display() prints) is tied to the implementation by the CueText correspondence '
+         '(text in, structure out, on both sides) rather than proved.',
+    trusted_base=COMMON_TRUST,
+    assumptions=['the stream length is a multiple of 588 (CD-DA mode), as the property states'],
+)
